@@ -165,10 +165,12 @@ def run_case(case):
         labels.add("write_" + side)
         labels.add("write_kind:" + op["kind"])
         through_ref = any(s_[0] == "d" for s_ in path)
-        if op["kind"] == "compound" and tg.has_refs(mat.model_get(spec, tm, path)[0]):
-            # the references inside the assigned element were rebound to new objects on this side only
-            unshared.append(list(path))
         still_shared = shared and not any(path[: len(u)] == u for u in unshared)
+        if op["kind"] == "compound" and tg.has_refs(mat.model_get(spec, tm, path)[0]) and not (through_ref and still_shared):
+            # the reference slots inside the assigned element live in this side's own storage and were rebound to new
+            # objects on this side only (an element inside a still shared referent is itself shared: both sides see
+            # the new slots)
+            unshared.append(list(path))
         if through_ref:
             labels.add("write_through_reference")
             if still_shared:
